@@ -539,7 +539,7 @@ class Cmp:
 
 
 def brief(x):
-    s = json.dumps(x, ensure_ascii=False) if not isinstance(x, str) else x
+    s = json.dumps(x, ensure_ascii=False, sort_keys=True) if not isinstance(x, str) else x
     return s if len(s) <= 400 else s[:400] + "…"
 
 
